@@ -17,6 +17,9 @@
    xmlbin <codec> s|k <tree>           -> the same for XMLConverter (strict) | encode-error
    utf32dec <hex>                      -> hex(UTF-8) of `utf32Decode` (the decoder of theorem C11_sink_utf32) | undecodable
 
+   esc.enc <str>  esc.attr s|k <str>  esc.text s|k <str>   -> hex(UTF-8) of the model's utils.enc / XMLConverter.attr / write_text
+   esc.unesc <hex utf-8>               -> hex(UTF-8) of `unescAny` (references replaced, nothing else) | bad-reference
+
    fmt.f3 <+|-> <p/q>   fmt.d <+|-> <p/q>   fmt.bbox (<+|-> <p/q>)x4   -> the formatted number(s)
 
    strings are code points in hex joined by ',' ("-" = empty); <tree> is a word sequence, see
@@ -226,6 +229,28 @@ def step (line : String) : String :=
     match stripFlag sf, codecOf cw, parsePages tree with
     | some strip, some codec, some ps => hexOfStr (sinkText (xmlDocWrites strip codec ps))
     | _, _, _ => "bad-op"
+  | ["esc.enc", w] =>
+    match strOfCps w with
+    | some t => hexOfStr (enc t)
+    | none => "bad-op"
+  | ["esc.attr", sf, w] =>
+    match stripFlag sf, strOfCps w with
+    | some strip, some t => hexOfStr (attr strip t)
+    | _, _ => "bad-op"
+  | ["esc.text", sf, w] =>
+    match stripFlag sf, strOfCps w with
+    | some strip, some t => hexOfStr (writeText strip t)
+    | _, _ => "bad-op"
+  | ["esc.unesc", hx] =>
+    match (if hx == "-" then some [] else bytesOfHex hx) with
+    | some bs =>
+      match String.fromUTF8? (ByteArray.mk bs.toArray) with
+      | some doc =>
+        match unescAny doc.toList with
+        | some t => hexOfStr t
+        | none => "bad-reference"
+      | none => "bad-op"
+    | none => "bad-op"
   | "skelstrip" :: sf :: tree =>
     match stripFlag sf, parsePages tree with
     | some strip, some ps =>
